@@ -221,6 +221,61 @@ def build_disjointness(w):
                           'len(new_els) == i', 'forall(0, i, lambda k: ' + RULE % ('new_els', 'new_els') + ')'])},
         hints={'var_types': {'new_els': 'Seq[MI]'}, 'ext_funcs': {'infer_multiplicity': T_MULT, 'cardinality.infer_cardinality': T_CARD}})
 
+def build_funccall(w):
+    """cardinality.__infer_func_call, functions that preserve the optionality / upper cardinality of their SET OF argument (assert_exists, assert_distinct, ...):
+    an argument bound to an OPTIONAL (element-wise) parameter makes the call run once per element, so if such an argument may have more than one element the call may too --
+    whatever the preserved upper bound of the SET OF argument is.  (The recursive inference of the arguments is the induction hypothesis: CARDOF.)"""
+    w.refclass('CArg', {'expr': 'Obj', 'param_typemod': 'TypeMod', 'cardinality': 'Card'})
+    w.refclass('ArgsD', {}); w.ufunc('ARGV', ['ArgsD'], 'Seq[CArg]'); w.ufunc('CARDOF', ['Obj'], 'Card')
+    w.ext_methods['ArgsD.values'] = dict(params={}, returns='Seq[CArg]', returns_expr='ARGV(self)')
+    w.refclass('FCall', {'args': 'ArgsD', 'global_args': 'Opt[Seq[Obj]]', 'preserves_optionality': 'bool', 'preserves_upper_cardinality': 'bool', 'typemod': 'TypeMod',
+                         'func_shortname': 'Obj', 'body': 'Opt[Obj]', 'volatility': 'Obj', 'span': 'Obj'})
+    w.refclass('FCtx', {'make_updates': 'bool'})
+    XF = {'infer_cardinality': dict(params={'ir': 'Obj'}, optional=('scope_tree', 'ctx', 'is_mutation'), returns='Card', returns_expr='CARDOF(ir)', ensures=['known(result)'], raises={'QueryError': {}}),
+          '_standard_call_cardinality': dict(params={'ir': 'FCall', 'cards': 'Seq[Card]', 'ctx': 'FCtx'}, returns='Card', raises={'QueryError': {}})}
+    AV = 'ARGV(ir.args)'
+    OPTMULTI = lambda hi: 'exists(0, %s, lambda j: %s[j].param_typemod == TypeMod.OptionalType and CARDOF(%s[j].expr).is_multi())' % (hi, AV, AV)
+    w.contract(CARD, '__infer_func_call', params={'ir': 'FCall', 'scope_tree': 'Obj', 'ctx': 'FCtx'}, returns='Card', modifies=['CArg.cardinality'],
+        ensures=['implies((ir.preserves_optionality or ir.preserves_upper_cardinality) and %s, result.is_multi())' % OPTMULTI('len(%s)' % AV)],
+        raises={'QueryError': {}, 'ValueError': {}},
+        loops={1: dict(fingerprint='for arg in ir.args.values()', index='i', invariant=['len(cards) == i', 'len(arg_typemods) == i',
+                       'forall(0, i, lambda j: cards[j] == CARDOF(%s[j].expr) and known(cards[j]) and arg_typemods[j] == %s[j].param_typemod)' % (AV, AV)]),
+               2: dict(fingerprint='for (arg, card) in zip(ir.args.values(), cards)', index='i', invariant=['forall(0, i, lambda j: implies(%s[j].param_typemod == TypeMod.OptionalType and CARDOF(%s[j].expr).is_multi(), force_multi))' % (AV, AV)])},
+        abstract={'for glob_arg in ir.global_args or ():': dict(assigns={}, raises=['QueryError']),
+                  'arg_card = zip(*(_card_to_bounds(card) for card in arg_cards))': dict(assigns={}),
+                  'arg_lower, arg_upper = arg_card': dict(assigns={'arg_lower': 'Seq[CB]', 'arg_upper': 'Seq[CB]'}, raises=['ValueError']),
+                  "lower = min(arg_lower) if ir.preserves_optionality else CB_ONE if ir.func_shortname == sn.QualName('std', 'assert_exists') else ret_lower_bound": dict(assigns={'lower': 'CB'}),
+                  'if ir.body is not None:': dict(assigns={}, raises=['QueryError']),
+                  'if ir.volatility == MODIFYING:': dict(assigns={}, raises=['QueryError'])},
+        hints={'ext_funcs': XF, 'var_types': {'cards': 'Seq[Card]', 'arg_typemods': 'Seq[TypeMod]', 'arg_cards': 'Seq[Card]'}})
+    return w
+
+def build_constset(w):
+    """multiplicity.__infer_const_set: a literal set reported UNIQUE has pairwise different run-time values.  RV(el) = the value element el evaluates to (uninterpreted);
+    what is known about it: a string / bytes / boolean constant denotes its own text, a float constant float(text), an integer / bigint / decimal constant Decimal(text)
+    (assumed semantics of literals, listed as trusted); nothing is known about the value of a query parameter or any other element."""
+    w.refclass('CEl', {'value': 'Obj', 'name': 'Obj', 'is_global': 'bool'}); w.hierarchies['CEl'] = IRAST
+    w.refclass('CSet', {'elements': 'Seq[CEl]'})
+    w.ufunc('RV', ['CEl'], 'Obj'); w.ufunc('FLT', ['Obj'], 'Obj'); w.ufunc('DEC', ['Obj'], 'Obj'); w.ufunc('TXT', ['Obj'], 'Obj')
+    w.trusted.append('run-time value of literals (RV): FloatConstant -> float(text); Integer / Bigint / DecimalConstant -> Decimal(text); any other constant -> its text / bytes; '
+                     'values of different kinds of key (FLT / DEC / TXT images) are only compared within one kind: the elements of a ConstantSet have one type')
+    ISF = lambda e: 'isinstance(%s, irast.FloatConstant)' % e
+    ISD = lambda e: '(isinstance(%s, irast.IntegerConstant) or isinstance(%s, irast.BigintConstant) or isinstance(%s, irast.DecimalConstant))' % (e, e, e)
+    ISC = lambda e: 'isinstance(%s, irast.BaseConstant)' % e
+    KEYOF = lambda e: '(FLT(%s.value) if %s else DEC(%s.value) if %s else %s.value)' % (e, ISF(e), e, ISD(e), e)
+    SEM = ('forall(0, len(ir.elements), lambda j: implies(%s, RV(ir.elements[j]) == %s))' % (ISC('ir.elements[j]'), KEYOF('ir.elements[j]')))
+    XC = {'float': dict(params={'s': 'Obj'}, returns='Obj', returns_expr='FLT(s)'),
+          'decimal.Decimal': dict(params={'s': 'Obj'}, returns='Obj', returns_expr='DEC(s)', raises={'InvalidOperation': {}})}
+    w.contract(MULT, '__infer_const_set', params={'ir': 'CSet', 'scope_tree': 'Obj', 'ctx': 'Obj'}, returns='MI',
+        requires=[SEM],
+        ensures=['implies(result.own == Mult.UNIQUE, forall(0, len(ir.elements), lambda a: forall(0, len(ir.elements), lambda b: implies(a != b, RV(ir.elements[a]) != RV(ir.elements[b])))))',
+                 'result.own == Mult.UNIQUE or result.own == Mult.DUPLICATE'],
+        loops={0: dict(fingerprint='for el in ir.elements', index='i', invariant=[
+                       'card(els) <= i', 'forall(0, i, lambda j: %s and RV(ir.elements[j]) in els)' % ISC('ir.elements[j]'),
+                       'implies(card(els) == i, forall(0, i, lambda a: forall(0, i, lambda b: implies(a != b, RV(ir.elements[a]) != RV(ir.elements[b])))))'])},
+        hints={'ext_funcs': XC, 'var_types': {'els': 'Set[Obj]'}})
+    return w
+
 def build():
     w = World('C06')
     w.enum('Card', QLT, 'Cardinality')
@@ -332,6 +387,8 @@ def build():
 
     build_ir_rules(w)
     build_disjointness(w)
+    build_funccall(w)
+    build_constset(w)
     # ---- what is sent to clients
     w.contract(ENUMS, 'cardinality_from_ir_value', params={'card': 'Card'}, returns='OutCard',
                requires=['known(card)'],
